@@ -68,7 +68,7 @@ pub(crate) struct FrequencyCounter {
 
 impl FrequencyCounter {
     pub(crate) fn new(counters: TotalCounters) -> FrequencyCounter {
-        let total_counters = Self::next_power_2(counters);
+        let total_counters = Self::next_power_2(counters).max(2);
         info!("Initializing FrequencyCounter with total counters {}", counters);
         FrequencyCounter {
             matrix: Self::matrix(total_counters),
